@@ -117,6 +117,7 @@ Record Att := mkAtt {
   a_pred_ok : bool;             (* check_predicates *)
   a_sig_ok : bool;              (* check_signatures *)
   a_vm : option VmOut;          (* None: into_ready / the VM returned an error *)
+  a_vm_err : N;                 (* ... namely this one (InvalidTransaction or VmExecution) *)
   a_mint_vm_ok : bool           (* mint: balance_increase succeeded *)
 }.
 
@@ -187,7 +188,9 @@ Definition E_InvalidTransaction := 3.   Definition E_Expired := 4.
 Definition E_Predicate := 5.            Definition E_CoinMismatch := 6.
 Definition E_CoinDoesNotExist := 7.     Definition E_ContractDoesNotExist := 8.
 Definition E_MessageSpendTooEarly := 9. Definition E_MessageMismatch := 10.
-Definition E_MessageDoesNotExistV := 11. Definition E_Signature := 12.
+Definition E_MessageDoesNotExistV := 11.
+(* check_signatures: CheckError is mapped to TransactionValidityError::Validation as well *)
+Definition E_Signature := 5.
 Definition E_Vm := 13.                  Definition E_MessageDoesNotExist := 14.
 Definition E_OutputAlreadyExists := 15. Definition E_TooManyOutputs := 16.
 Definition E_InvalidContractInputIndex := 17. Definition E_FeeOverflow := 18.
@@ -380,7 +383,7 @@ Definition execute_chargeable (P : Params) (hdr : Header) (a : Att) (st : St) (d
   | Some e => (d, inr e)
   | None =>
       match a_vm a with
-      | None => (d, inr E_Vm)
+      | None => (d, inr (a_vm_err a))
       | Some o =>
           match compute_inputs (p_forbid P) st (t_inputs tx) with
           | Some e => (d, inr e)
@@ -623,7 +626,7 @@ Definition mint_att (P : Params) (c : Components) (d : Data) (ma : Att) : Att :=
   let tx := a_tx ma in
   mkAtt (mkTx (t_id tx) true [] [] (t_mall tx) 0 0 (tx_count d) (c_gas_price c)
               (if c_recipient c =? 0 then 0 else coinbase d) (c_recipient c) true)
-        false u32max (a_basic_ok ma) true true (a_vm ma) (a_mint_vm_ok ma).
+        false u32max (a_basic_ok ma) true true (a_vm ma) (a_vm_err ma) (a_mint_vm_ok ma).
 
 Record Produced := mkProduced { pr_run : Run; pr_hints : list Hint }.
 
@@ -733,7 +736,8 @@ Definition validate_block (P : Params) (hdr : Header) (l : L1) (blk : Block) (st
 Definition exec_form (a : Att) : Tx :=
   match a_vm a with Some o => executed_tx (a_tx a) o | None => a_tx a end.
 Definition vatt (a : Att) : Att :=
-  mkAtt (exec_form a) false (a_expiration a) true (a_pred_ok a) (a_sig_ok a) (a_vm a) (a_mint_vm_ok a).
+  mkAtt (exec_form a) false (a_expiration a) true (a_pred_ok a) (a_sig_ok a) (a_vm a) (a_vm_err a)
+        (a_mint_vm_ok a).
 
 (* the block a successful production describes, given the oracle answers [vatts] that the
    validating run will see for the included transactions *)
@@ -975,12 +979,12 @@ Definition gVm (t : T) : option (option VmOut) :=
   end.
 Definition gAtt (t : T) : option Att :=
   match t with
-  | L [tx; ck; ex; bo; po; so; vm; mv] =>
+  | L [tx; ck; ex; bo; po; so; vm; ve; mv] =>
       match gTx tx, getB ck, getN ex, getB bo, getB po, getB so with
       | Some tx, Some ck, Some ex, Some bo, Some po, Some so =>
-          match gVm vm, getB mv with
-          | Some vm, Some mv => Some (mkAtt tx ck ex bo po so vm mv)
-          | _, _ => None
+          match gVm vm, getN ve, getB mv with
+          | Some vm, Some ve, Some mv => Some (mkAtt tx ck ex bo po so vm ve mv)
+          | _, _, _ => None
           end
       | _, _, _, _, _, _ => None
       end
